@@ -216,6 +216,17 @@ def run(ctx):
     # only if keyword code keeps no memo between sub-validations (a remembered "already passed" is keyed by ==, not JSON equality)
     from .c05 import rule_no_shared_state
     rule_no_shared_state(ctx, "R11.7")
+    # R11.8: for check_schema the candidate schema is the instance; its members false / 0 / "" / null / {} are present members
+    # (Draft 4 `dependencies`: exclusiveMinimum: false still requires minimum)
+    from .c01 import rule_instance_not_a_condition, rule_type_predicates
+    rule_instance_not_a_condition(ctx, "R11.8")
+    # R11.3b: every metaschema constrains its members through `type`; the verdict on a candidate is the metaschema's only if each
+    # type predicate decides every value class (huge integers, integer-valued floats, booleans) as the draft says
+    rule_type_predicates(ctx, "R11.3b")
+    # R11.9: under check_schema `validator.schema` is the metaschema root; a keyword that reads its siblings there instead of in
+    # the schema object it was called with applies the wrong constraints to nested members of the candidate
+    from .c10 import rule_read_set
+    rule_read_set(ctx, "R11.9")
     try:
         from .c03 import rule_metaschema_shapes
     except ImportError:
